@@ -330,6 +330,23 @@ class FlowTable (EventMixin):
 
     return None
 
+  @staticmethod
+  def _matches_overlap (a, b):
+    """
+    Tests whether a single packet may match both a and b
+    """
+    for f in ofp_match_data:
+      if f in ('nw_src', 'nw_dst'): continue
+      va,vb = getattr(a, f),getattr(b, f)
+      if va is not None and vb is not None and va != vb: return False
+    for get in ('get_nw_src', 'get_nw_dst'):
+      (ipa,bitsa),(ipb,bitsb) = getattr(a, get)(),getattr(b, get)()
+      if ipa is None or ipb is None: continue
+      bits = min(bitsa, bitsb)
+      if IPAddr(ipa).get_network(bits) != IPAddr(ipb).get_network(bits):
+        return False
+    return True
+
   def check_for_overlapping_entry (self, in_entry):
     """
     Tests if the input entry overlaps with another entry in this table.
@@ -352,7 +369,7 @@ class FlowTable (EventMixin):
       elif e.effective_priority > priority:
         continue
       else:
-        if e.is_matched_by(in_entry.match) or in_entry.is_matched_by(e.match):
+        if self._matches_overlap(e.match, in_entry.match):
           return True
 
     return False
